@@ -9,6 +9,7 @@ import (
 	"github.com/bronlabs/bron-crypto/pkg/commitments/indcpacom"
 	pedcom "github.com/bronlabs/bron-crypto/pkg/commitments/pedersencom"
 	"github.com/bronlabs/bron-crypto/pkg/encryption/elgamal"
+	"github.com/bronlabs/bron-crypto/pkg/mpc/sharing"
 
 	"verif/engine/symalg"
 )
@@ -200,6 +201,125 @@ func c18IndCPA[E algebra.PrimeGroupElement[E, S], S algebra.PrimeFieldElement[S]
 	}
 }
 
+// c18Nary: variadic combinations with n = 2..5 operands, Pedersen and ElGamal-based commitments:
+// CommitmentOp(c1..cn) opens to (MessageOp(m1..mn), WitnessOp(w1..wn)), and the combined message /
+// witness are the sums of ALL operands.
+func c18Nary[E algebra.PrimeGroupElement[E, S], S algebra.PrimeFieldElement[S]](env Env[E, S], n int) {
+	f := env.Field()
+	group := env.Group()
+	g := group.Generator()
+	key, _, ok := pedersenKey(env)
+	if !ok {
+		return
+	}
+	var ms []*pedcom.Message[S]
+	var ws []*pedcom.Witness[S]
+	var cs []*pedcom.Commitment[E, S]
+	msum, wsum := f.Zero(), f.Zero()
+	for i := 0; i < n; i++ {
+		mv, rv := env.Scalar(fmt.Sprintf("m%d", i)), env.Scalar(fmt.Sprintf("r%d", i))
+		m, _ := pedcom.NewMessage(mv)
+		w, _ := pedcom.NewWitness(rv)
+		c, err := key.CommitWithWitness(m, w)
+		if !env.Check("C18.b/nary: commit-ok", err == nil, fmt.Sprint(err)) {
+			return
+		}
+		ms, ws, cs = append(ms, m), append(ws, w), append(cs, c)
+		msum, wsum = msum.Add(mv), wsum.Add(rv)
+	}
+	cc, e1 := key.CommitmentOp(cs[0], cs[1], cs[2:]...)
+	mm, e2 := key.MessageOp(ms[0], ms[1], ms[2:]...)
+	ww, e3 := key.WitnessOp(ws[0], ws[1], ws[2:]...)
+	if env.Check(fmt.Sprintf("C18.b/nary[n=%d]: ops-ok", n), e1 == nil && e2 == nil && e3 == nil, fmt.Sprint(e1, e2, e3)) {
+		env.Valid(fmt.Sprintf("C18.b/nary[n=%d]: MessageOp is the sum of all messages", n), env.EqF(mm.Value(), msum))
+		env.Valid(fmt.Sprintf("C18.b/nary[n=%d]: WitnessOp is the sum of all witnesses", n), env.EqF(ww.Value(), wsum))
+		env.Check(fmt.Sprintf("C18.b/nary[n=%d]: CommitmentOp opens to (MessageOp, WitnessOp)", n), key.Open(cc, mm, ww) == nil, "combined commitment does not open")
+	}
+
+	// ElGamal-based commitments
+	a := env.Scalar("sk")
+	env.Assume(symalg.Not(env.EqF(a, f.Zero())))
+	env.Assume(symalg.Not(env.EqF(a, f.One())))
+	sk, err := elgamal.NewSecretKey[E, S](g, a)
+	if !env.Check("C18.c/nary: keygen-ok", err == nil, fmt.Sprint(err)) {
+		return
+	}
+	hk, err := indcpacom.NewHomomorphicCommitmentKey[*elgamal.PublicKey[E, S], *elgamal.Plaintext[E, S], *elgamal.Nonce[S], *elgamal.Ciphertext[E, S], S](sk.Public())
+	if !env.Check("C18.c/nary: key-ok", err == nil, fmt.Sprint(err)) {
+		return
+	}
+	var ims []*indcpacom.Message[*elgamal.Plaintext[E, S]]
+	var iws []*indcpacom.Witness[*elgamal.Nonce[S]]
+	var ics []*indcpacom.Commitment[*elgamal.Ciphertext[E, S]]
+	psum, nsum := group.OpIdentity(), f.Zero()
+	for i := 0; i < n; i++ {
+		pv, rv := env.Point(fmt.Sprintf("p%d", i)), env.Scalar(fmt.Sprintf("n%d", i))
+		env.Assume(symalg.Not(env.EqF(rv, f.Zero())))
+		pt, _ := elgamal.NewPlaintext[E, S](pv)
+		nn, e0 := elgamal.NewNonce(rv)
+		m, e1 := indcpacom.NewMessage(pt)
+		w, e2 := indcpacom.NewWitness(nn)
+		if !env.Check("C18.c/nary: inputs-ok", e0 == nil && e1 == nil && e2 == nil, fmt.Sprint(e0, e1, e2)) {
+			return
+		}
+		c, err := hk.CommitWithWitness(m, w)
+		if !env.Check("C18.c/nary: commit-ok", err == nil, fmt.Sprint(err)) {
+			return
+		}
+		ims, iws, ics = append(ims, m), append(iws, w), append(ics, c)
+		psum, nsum = psum.Op(pv), nsum.Add(rv)
+	}
+	env.Assume(symalg.Not(env.EqF(nsum, f.Zero())))
+	icc, e1 := hk.CommitmentOp(ics[0], ics[1], ics[2:]...)
+	imm, e2 := hk.MessageOp(ims[0], ims[1], ims[2:]...)
+	iww, e3 := hk.WitnessOp(iws[0], iws[1], iws[2:]...)
+	if env.Check(fmt.Sprintf("C18.c/nary[n=%d]: ops-ok", n), e1 == nil && e2 == nil && e3 == nil, fmt.Sprint(e1, e2, e3)) {
+		env.Valid(fmt.Sprintf("C18.c/nary[n=%d]: MessageOp is the product of all plaintexts", n), env.EqG(imm.Value().Value(), psum))
+		env.Valid(fmt.Sprintf("C18.c/nary[n=%d]: WitnessOp is the sum of all nonces", n), env.EqF(iww.Value().Value(), nsum))
+		env.Check(fmt.Sprintf("C18.c/nary[n=%d]: CommitmentOp opens to (MessageOp, WitnessOp)", n), hk.Open(icc, imm, iww) == nil, "combined commitment does not open")
+	}
+	env.Reach("nary-done")
+}
+
+// c18ExtractKey: a transcript-derived Pedersen key uses the base point it was given.
+func c18ExtractKey(env *SymEnv) {
+	group := env.R.Group()
+	f := env.Field()
+	P := env.Point("basepoint")
+	env.Assume(symalg.Not(env.EqG(P, group.OpIdentity())))
+	ctxs, err := makeContexts("c18/extract", []sharing.ID{1, 2})
+	if err != nil {
+		env.Check("C18.b/extract: harness", false, err.Error())
+		return
+	}
+	t1, t2 := ctxs[1].Transcript().Clone(), ctxs[1].Transcript().Clone()
+	key, err := pedcom.ExtractCommitmentKey[sG, sF](t1, "label", P)
+	keyG, err2 := pedcom.ExtractCommitmentKey[sG, sF](t2, "label", group.Generator())
+	if err != nil || err2 != nil {
+		env.Reach("extract-refused")
+		return
+	}
+	env.Valid("C18.b/extract: the key's first generator is the supplied base point", env.EqG(key.G(), P))
+	env.Valid("C18.b/extract: equal transcripts give the same second generator", env.EqG(key.H(), keyG.H()))
+	mv, rv := env.Scalar("m"), env.Scalar("r")
+	m, _ := pedcom.NewMessage(mv)
+	w, _ := pedcom.NewWitness(rv)
+	c, err := key.CommitWithWitness(m, w)
+	if env.Check("C18.b/extract: commit-ok", err == nil, fmt.Sprint(err)) {
+		env.Valid("C18.b/extract: commitment = P^m · h^r", env.EqG(c.Value(), P.ScalarOp(mv).Op(key.H().ScalarOp(rv))))
+		if explicit, err := pedcom.NewCommitmentKeyUnchecked[sG, sF](P, key.H()); err == nil {
+			env.Check("C18.b/extract: opens under the explicitly built key (P, h)", explicit.Open(c, m, w) == nil, "does not open under (P,h)")
+		}
+		// under the key derived for the canonical generator it opens only if P = G or m = 0
+		if keyG.Open(c, m, w) == nil {
+			env.Valid("C18.b/extract: opening under the key for another base point ⇒ same base point or m=0", symalg.Or(env.EqG(P, group.Generator()), env.EqF(mv, f.Zero())))
+		} else {
+			env.Reach("other-base-point-key-rejects")
+		}
+	}
+	env.Reach("extract-done")
+}
+
 // C18Cases builds the case list (E2 part: Pedersen, trapdoor, IND-CPA commitments).
 func C18Cases(tier string, seed int64) []Case {
 	var cases []Case
@@ -213,6 +333,19 @@ func C18Cases(tier string, seed int64) []Case {
 			func(e Env[*symalg.G, *symalg.F]) { c18Trapdoor(e, lam) },
 			func(e Env[*k256.Point, *k256.Scalar]) { c18Trapdoor(e, lam) }))
 	}
+	ns := []int{3, 4}
+	if tier == "thorough" {
+		ns = []int{2, 3, 4, 5, 6}
+	}
+	for _, n := range ns {
+		nn := n
+		c := both(fmt.Sprintf("C18/nary/n=%d", n), map[string]any{"schemes": "pedersen, indcpacom over elgamal", "operands": n},
+			func(e Env[*symalg.G, *symalg.F]) { c18Nary(e, nn) },
+			func(e Env[*k256.Point, *k256.Scalar]) { c18Nary(e, nn) })
+		c.MustReach = []string{"nary-done"}
+		cases = append(cases, c)
+	}
+	cases = append(cases, Case{ID: "C18/pedersen-extract-key", Desc: map[string]any{"scheme": "pedersen", "key": "ExtractCommitmentKey with an arbitrary symbolic base point"}, Sym: c18ExtractKey, MustReach: []string{"extract-done"}})
 	cases = append(cases, both("C18/indcpacom-elgamal", map[string]any{"scheme": "indcpacom over elgamal"},
 		func(e Env[*symalg.G, *symalg.F]) { c18IndCPA(e) },
 		func(e Env[*k256.Point, *k256.Scalar]) { c18IndCPA(e) }))
